@@ -27,7 +27,11 @@ K3  histories through the REAL main program (`MainProgram.execute([FILE])`, in p
     after every change of a setting and in every later phase, must see the state at the time of
     THAT use (resolved path = current directory at that point; environment / timeout / cwd of the
     processes started through the symbols; the text on stdin).
-    Also: the value of a variable coming from a program (that program is a process
+    Also: the program BEHIND THE STDIN of the action to check (`stdin = -stdout-from PROGRAM`, a `run`
+    transformer, both, a text-source symbol; placed anywhere in [setup]): a process that is not the
+    process of the act phase - it sees the non-act set / timeout / cwd as they stand at the end of
+    [setup], the action to check sees the act set and reads what the program wrote;
+    the value of a variable coming from a program (that program is a process
     too); the act phase process started by each of the four kinds of actor; and, with CrossHair
     tracing ON, fixed histories with SYMBOLIC timeouts (literals K0, K1 through the real parser)
     and a SYMBOLIC initial value of the variable A in the environment Exactly is started with.
@@ -288,6 +292,8 @@ def stand_in_child_stdout(command_line: str) -> str:
         return VALUE_PROGRAM_OUTPUT
     if command_line.startswith(VIA_TEXT_SOURCE):
         return command_line
+    if command_line.startswith('probe-stdin-'):
+        return 'written by ' + command_line
     return ''
 VALUE_PROGRAM = '-stdout-from $ probe-value' + PATH_ARGS
 
@@ -367,8 +373,33 @@ def probe_point(name: str, seen):
             (name + VIA_SYMBOL, dict(env), timeout, cwd, (implicit, VIA_TEXT_SOURCE + ' ' + implicit))]
 
 
-def case_text(history, actor: str = 'command-shell') -> str:
-    """history: sequence of (form index, phase index into PHASES), phases non-decreasing."""
+# The program BEHIND THE STDIN of the action to check: `stdin = TEXT-SOURCE` in [setup] where the text comes from a program.
+# The program is a process, and it is not the process of the act phase: it sees the non-act set (and the timeout / current
+# directory) as they stand when the act phase consumes the text, i.e. at the end of [setup].
+# (stdin line, name of the recorded process, its arguments given the current directory)
+STDIN_PRODUCER = 'probe-stdin-producer'
+STDIN_TRANSFORMER = 'probe-stdin-transformer'
+STDIN_FORMS = (
+    ('stdin = -stdout-from % ' + STDIN_PRODUCER + PATH_ARGS, STDIN_PRODUCER, 'paths'),
+    ('stdin = -stdout-from $ ' + STDIN_PRODUCER + PATH_ARGS, STDIN_PRODUCER, 'paths'),
+    ('stdin = "text" -transformed-by run % ' + STDIN_TRANSFORMER + PATH_ARGS, STDIN_TRANSFORMER, 'paths'),
+    ('stdin = -stdout-from % ' + STDIN_PRODUCER + PATH_ARGS + '\n    -transformed-by run % ' + STDIN_TRANSFORMER, None, 'both'),
+    ('stdin = @[TS]@', VIA_TEXT_SOURCE, 'implicit'),  # the text-source symbol defined once at the start of [setup]
+)
+
+
+def stdin_observations(stdin_form: int, seen):
+    """What the process(es) behind the stdin of the action to check see, given what an instruction would see (`seen`)."""
+    env, timeout, cwd = seen
+    line, name, args = STDIN_FORMS[stdin_form]
+    if args == 'both':
+        return [(STDIN_PRODUCER, dict(env), timeout, cwd, path_args(cwd)), (STDIN_TRANSFORMER, dict(env), timeout, cwd, ())]
+    return [(name, dict(env), timeout, cwd, path_args(cwd) if args == 'paths' else path_args(cwd)[:1])]
+
+
+def case_text(history, actor: str = 'command-shell', stdin=None) -> str:
+    """history: sequence of (form index, phase index into PHASES), phases non-decreasing.
+    stdin: None or (index into STDIN_FORMS, number of instructions of the history in [setup] that precede the stdin line)."""
     lines = []
     if ACTORS[actor][0]:
         lines.append('[conf]')
@@ -382,16 +413,20 @@ def case_text(history, actor: str = 'command-shell') -> str:
             lines.extend(PRELUDE)
         lines.extend(probe_lines(ph, 0))
         i = 0
+        if ph == 'setup' and stdin is not None and stdin[1] == 0:
+            lines.append(STDIN_FORMS[stdin[0]][0])
         for f, p in history:
             if PHASES[p] == ph:
                 i += 1
                 lines.append(FORMS[f][0])
                 lines.extend(probe_lines(ph, i))
+                if ph == 'setup' and stdin is not None and stdin[1] == i:
+                    lines.append(STDIN_FORMS[stdin[0]][0])
         lines.append('')
     return '\n'.join(lines) + '\n'
 
 
-def expected_observations(history, initial_environ, act_dir: str, ints=None, bug: int = 0):
+def expected_observations(history, initial_environ, act_dir: str, ints=None, bug: int = 0, stdin_form=None):
     """The reference: what every probe process sees, in the order of the test case.  None if a `cd` of the
     history names a directory that does not exist (such histories are outside the quantifier: the case
     stops with HARD_ERROR there)."""
@@ -399,6 +434,9 @@ def expected_observations(history, initial_environ, act_dir: str, ints=None, bug
     out = []
     for ph in ALL_PHASES:
         if ph == 'act':
+            if stdin_form is not None:
+                # the text is produced when the act phase consumes it; its program is not the process of the act phase
+                out.extend(stdin_observations(stdin_form, m.seen_by_instruction() if bug != 7 else m.seen_by_atc()))
             seen = m.seen_by_atc() if bug != 5 else m.seen_by_instruction()
             out.append(('probe-act',) + seen + (path_args(seen[2]),))
             continue
@@ -493,7 +531,7 @@ def _pre_k3(f0: int, p0: int, f1: int, p1: int, f2: int, p2: int) -> bool:
         return expected_observations(h, {}, '/R/W/S/act') is not None
 
 
-def run_history(h, recorder=None, actor: str = 'command-shell'):
+def run_history(h, recorder=None, actor: str = 'command-shell', stdin=None):
     import os
     from harness import _C11_lib as L
     saved = {n: os.environ.get(n) for n in ('A', 'B', 'P', 'U')}
@@ -504,7 +542,7 @@ def run_history(h, recorder=None, actor: str = 'command-shell'):
         initial = dict(os.environ)
         if recorder is None:
             recorder = L.Recorder(stdout_of=stand_in_child_stdout)
-        run = L.run_main_program(case_text(h, actor), recorder, FILES_IN_HOME)
+        run = L.run_main_program(case_text(h, actor, stdin), recorder, FILES_IN_HOME)
     finally:
         for n, v in saved.items():
             if v is None:
@@ -525,13 +563,18 @@ def observed(call, actor: str = 'command-shell'):
     return name, call.env, call.timeout, call.cwd, args
 
 
-def check_run(h, initial, run, ints=None, bug: int = 0, actor: str = 'command-shell') -> bool:
+def check_run(h, initial, run, ints=None, bug: int = 0, actor: str = 'command-shell', stdin_form=None) -> bool:
     if run.exception is not None or run.rc != 0 or run.ident != 'PASS' or len(run.sandbox_roots) != 1:
         return False
     if run.environ_after != run.environ_before:  # the environment of Exactly itself is not the medium
         return False
-    want = expected_observations(h, initial, run.act_dir, ints, bug)
+    want = expected_observations(h, initial, run.act_dir, ints, bug, stdin_form)
     got = [observed(c, actor) for c in run.calls]
+    if stdin_form is not None:
+        # the action to check finds on its stdin what the (last) program behind it wrote
+        for i, c in enumerate(run.calls):
+            if c.tag.startswith('probe-act') and (i == 0 or c.stdin_text != stand_in_child_stdout(run.calls[i - 1].tag)):
+                return False
     return want is not None and same_observations(got, want)
 
 
@@ -550,6 +593,51 @@ def k3_history(f0: int, p0: int, f1: int, p1: int, f2: int, p2: int) -> bool:
     with L.untraced():
         initial, run = run_history(h, None, case.get('actor', 'command-shell'))
         ok = check_run(h, initial, run, None, case.get('oracle_bug', 0), case.get('actor', 'command-shell'))
+    return ob.post(ok)
+
+
+# K3 with the program behind the stdin of the action to check.
+
+def _pre_k3i(f0: int, f1: int, sf: int, sp: int) -> bool:
+    from harness import _C11_lib as L
+    case = ob.case()
+    phases = tuple(case['phases'])
+    k = len(phases)
+    ranges = _form_ranges(dict(case, k=k))
+    fs = (f0, f1)
+    for x in fs[k:]:
+        if x != 0:
+            return False
+    for i in range(k):
+        if not (ranges[i][0] <= fs[i] < ranges[i][1]):
+            return False
+    lo, hi = case.get('stdin_forms', (0, len(STDIN_FORMS)))
+    if not (lo <= sf < hi and 0 <= sp <= len([p for p in phases if p == 0])):
+        return False
+    h = tuple((ob.concrete_int(fs[i], ranges[i][0], ranges[i][1] - 1), phases[i]) for i in range(k))
+    with L.untraced():
+        return expected_observations(h, {}, '/R/W/S/act') is not None
+
+
+def k3_stdin(f0: int, f1: int, sf: int, sp: int) -> bool:
+    """
+    pre: _pre_k3i(f0, f1, sf, sp)
+    post: _
+    """
+    from harness import _C11_lib as L
+    case = ob.case()
+    phases = tuple(case['phases'])
+    k = len(phases)
+    ranges = _form_ranges(dict(case, k=k))
+    fs = (f0, f1)
+    h = tuple((ob.concrete_int(fs[i], ranges[i][0], ranges[i][1] - 1), phases[i]) for i in range(k))
+    lo, hi = case.get('stdin_forms', (0, len(STDIN_FORMS)))
+    sf = ob.concrete_int(sf, lo, hi - 1)
+    sp = ob.concrete_int(sp, 0, len([p for p in phases if p == 0]))
+    actor = case.get('actor', 'command-shell')
+    with L.untraced():
+        initial, run = run_history(h, None, actor, (sf, sp))
+        ok = check_run(h, initial, run, None, case.get('oracle_bug', 0), actor, sf)
     return ob.post(ok)
 
 
@@ -648,6 +736,11 @@ REAL_K3 = (
     'exactly_lib.test_case.phases.setup.settings_builder.SetupSettingsBuilder',
     'exactly_lib.util.process_execution.process_executor.ProcessExecutor.execute',
     'exactly_lib.definitions.os_proc_env.TIMEOUT__DEFAULT',
+)
+REAL_K3I = (
+    'exactly_lib.execution.partial_execution.setup_settings_handler.AtcExecutionInputAdv.resolve',
+    'exactly_lib.execution.partial_execution.impl.atc_execution.ActionToCheckExecutor._app_env_for_execute',
+    'exactly_lib.impls.instructions.setup.stdin.Parser',
 )
 STUB_SUBPROCESS = ('subprocess module at process_executor / preprocessor: recording stand-in that starts nothing; records command line, '
                    'env= (None: os.environ at that moment), timeout=, cwd= (absent: os.getcwd() at that moment); exit code 0')
@@ -767,6 +860,36 @@ def obligations(tier: str) -> List[Ob]:
                           dict(k=k, phases=phases, actor=actor, ranges=((0, NPROG),) + ((0, NBASE),) * (k - 1)),
                           'the first out of the %d forms %s, the others out of the first %d of these; actor %s: %s' % (
                               NPROG, [f[0] for f in FORMS[:NPROG]], NBASE, actor, ACTORS[actor])))
+    # the program behind the stdin of the action to check
+    stdin_text = ('`stdin = TEXT-SOURCE` placed in [setup] before / between / after them in every way, TEXT-SOURCE every one of %s: '
+                  'the process(es) producing the text see the non-act set, the timeout and the current directory as they stand at '
+                  'the end of [setup], the action to check the act set, and it reads on its stdin what the program wrote; '
+                  % [f[0] for f in STDIN_FORMS])
+
+    def k3i(name, case, forms_text, expect=ob.CONFIRM, timeout=900):
+        phases = case['phases']
+        return Ob(name=name, fn='k3_stdin', case=case, kernel='K3', selector=True,
+                  bound='every history of %d instruction(s) %s placed in [%s]; %s%s' % (
+                      len(phases), forms_text, '], ['.join(PHASES[p] for p in phases), stdin_text, probes),
+                  timeout=timeout, real=REAL_K3 + REAL_K3I, stubs=stubs_k3 + (STUB_UNTRACED,), outside=outside_k3 + (
+                      'the form `-stdin TEXT-SOURCE` written inside [act]',), expect=expect,
+                  entry='MainProgram.execute([FILE]) on the generated test-case file')
+
+    stdin_histories = [(), (0,), (0, 0)] if tier == 'quick' else [(), (0,), (0, 0), (0, 1), (0, 2), (0, 3), (1, 2)]
+    for phases in stdin_histories:
+        name = 'K3:stdin-program:k%d:%s' % (len(phases), '+'.join(PHASES[p] for p in phases) or 'none')
+        if len(phases) < 2:
+            obs.append(k3i(name, dict(phases=phases), base_text))
+        else:
+            for sfi in range(len(STDIN_FORMS)):
+                obs.append(k3i('%s:form%d' % (name, sfi), dict(phases=phases, stdin_forms=(sfi, sfi + 1)),
+                               base_text + ' (TEXT-SOURCE: form %d only)' % sfi))
+    for actor in ACTORS:
+        if actor != 'command-shell':
+            obs.append(k3i('K3:stdin-program:actor:%s' % actor, dict(phases=(0,), actor=actor, ranges=((0, NPROG),)),
+                           'out of the %d forms %s; actor %s: %s' % (NPROG, [f[0] for f in FORMS[:NPROG]], actor, ACTORS[actor])))
+    obs.append(k3i('K3:stdin-program:seeded-oracle-error', dict(phases=(0,), oracle_bug=7),
+                   'seeded: the program behind stdin is claimed to see the act set', expect=ob.REFUTE, timeout=600))
     obs.append(k3('K3:seeded-oracle-error-atc-sees-non-act-set', dict(k=1, phases=(0,), oracle_bug=5),
                   'seeded: the act process is claimed to see the non-act set', expect=ob.REFUTE, timeout=600))
     obs.append(k3('K3:seeded-oracle-error-timeout-ignored', dict(k=1, phases=(2,), oracle_bug=6),
